@@ -610,6 +610,10 @@ def _exclusive_take(program):
     """at most one taking behaviour per stage (two addons cannot both own a flow)"""
     seen = set()
     for p, b in program["faults"]:
+        if b == "own_and_release_now" and any(q[0] == "hook" and q[2] == p[2] and list(q) != list(p) for q, _ in program["faults"]):
+            # the flow goes back at the moment of that release: what other hooks of the same stage do afterwards cannot be in it
+            return False
+    for p, b in program["faults"]:
         if p[0] == "hook" and b.startswith("take"):
             if p[2] in seen or seen:
                 return False
@@ -666,6 +670,8 @@ def run_shard(ctx, shard):
 
 def replay(ctx, case):
     if isinstance(case, dict) and "faults" in case:
+        if not _exclusive_take(case):
+            return []       # outside the generated domain (see _exclusive_take)
         return run_program(case)[0]
     if isinstance(case, dict):
         return state_law(case)
